@@ -34,6 +34,15 @@ func (x *Exec) libraryModel(st *State, call *ast.CallExpr, c *callee, recv *T, a
 	case "fmt.Sprintf", "fmt.Sprint", "fmt.Sprintln":
 		x.trust("fmt.Sprintf result is an unconstrained string unless a contract says otherwise")
 		return x.havocVal(st, "sprintf", rt(0)), true
+	case "encoding/binary.littleEndian.PutUint64", "encoding/binary.bigEndian.PutUint64", "encoding/binary.littleEndian.PutUint32", "encoding/binary.bigEndian.PutUint32":
+		if r, ok := x.putUintModel(st, call, name, args); ok {
+			return r, true
+		}
+	case "crypto/sha256.Sum256":
+		x.d.declareFun("sha256", []string{"(Slc Int)"}, "(Array Int Int)")
+		x.trust("sha256.Sum256 is a function of its input bytes (uninterpreted)")
+		r := T{S: app("sha256", args[0].S), Ty: rt(0)}
+		return r, true
 	case "encoding/hex.EncodeToString":
 		x.d.declareFun("hex_enc", []string{"(Slc Int)"}, "Str")
 		x.trust("hex.EncodeToString is a function of the byte string (uninterpreted hex_enc)")
